@@ -1,6 +1,7 @@
 package props
 
 import (
+	"encoding/base64"
 	"fmt"
 	"math/rand/v2"
 	"runtime"
@@ -12,6 +13,7 @@ import (
 
 	"github.com/anishathalye/porcupine"
 	"github.com/gdamore/tcell/v2"
+	"github.com/gdamore/tcell/v2/terminfo"
 
 	"verif/core"
 	"verif/faketty"
@@ -90,6 +92,7 @@ func C05(r *core.Run) {
 	c05stall(r)
 	c05pendingStall(r)
 	c05escResize(r)
+	c05focusTail(r)
 	c05preInit(r)
 	c05acrossSuspend(r)
 	// input whose reads fill the reader's buffer exactly is delivered without further input
@@ -99,6 +102,9 @@ func C05(r *core.Run) {
 }
 
 func c05history(r *core.Run, hi int) {
+	if r.Violations() > 0 && hi >= 16 {
+		return // a violation is on record: the remaining histories add nothing to the verdict
+	}
 	rg := r.Rand("h", hi)
 	ti := Pristine("xterm-256color")
 	ls, err := startScreen(ti, 400, 8, nil)
@@ -112,9 +118,21 @@ func c05history(r *core.Run, hi int) {
 	var stream []byte
 	var exps []*c05exp
 	focus := false
+	crg := r.Rand("hclip", hi) // its own stream: the other tokens of a history stay what they were
 	for id := 0; id < nev; id++ {
 		off := len(stream)
 		add := func(e NEv) { exps = append(exps, &c05exp{ev: e, firstOff: off}) }
+		if crg.IntN(14) == 0 {
+			// the terminal's answer to an OSC 52 clipboard query, terminated by BEL or by ST
+			data := fmt.Sprintf("clip-%d", id)
+			term := "\a"
+			if crg.IntN(2) == 0 {
+				term = "\x1b\\"
+			}
+			stream = append(stream, []byte("\x1b]52;c;"+base64.StdEncoding.EncodeToString([]byte(data))+term)...)
+			add(NEv{T: "clip", Data: data})
+			continue
+		}
 		switch k := rg.IntN(10); {
 		case k < 5:
 			rn := rune(0x4e00 + id)
@@ -340,24 +358,37 @@ func c05history(r *core.Run, hi int) {
 	pwg.Wait()
 	atomic.StoreInt32(&postersDone, 1)
 	// wait for the feeder (it can only finish if the poller drains)
+	// A watchdog that fires ends the history early: what WAS delivered is still judged (a
+	// delivered prefix that differs from the expected stream is a violation whatever happens
+	// later); only "the rest never came" stays inconclusive.
+	watchdog := ""
 	fdl := time.Now().Add(60 * time.Second)
-	for atomic.LoadInt32(&feederDone) == 0 {
+	for atomic.LoadInt32(&feederDone) == 0 && watchdog == "" {
 		time.Sleep(200 * time.Microsecond)
 		if time.Now().After(fdl) {
-			r.Inconclusive(fmt.Sprintf("history %d: feeder watchdog", hi))
-			return
+			watchdog = "feeder watchdog"
 		}
 	}
 	atomic.StoreInt32(&stopResize, 1)
 	rwg.Wait()
-	ls.tty.Feed([]byte(string(sentinel)))
-	select {
-	case <-pollDone:
-	case <-time.After(60 * time.Second):
-		r.Inconclusive(fmt.Sprintf("history %d: poller watchdog", hi))
-		return
+	if watchdog == "" {
+		ls.tty.Feed([]byte(string(sentinel)))
+		select {
+		case <-pollDone:
+		case <-time.After(60 * time.Second):
+			watchdog = "poller watchdog"
+		}
 	}
 	ls.fini()
+	if watchdog != "" {
+		// Fini releases the poller (PollEvent returns nil); only then is its record read
+		select {
+		case <-pollDone:
+		case <-time.After(30 * time.Second):
+			r.Inconclusive(fmt.Sprintf("history %d: %s, and the poller did not come back after Fini", hi, watchdog))
+			return
+		}
+	}
 	if v := hpViol.Load(); v != nil {
 		r.Violate("haspending-then-poll-blocks", v.(string), nil)
 	}
@@ -474,6 +505,10 @@ func c05history(r *core.Run, hi int) {
 	}
 	for ei < len(exps) && exps[ei].optional {
 		ei++
+	}
+	if watchdog != "" {
+		r.Inconclusive(fmt.Sprintf("history %d: %s (the %d input events delivered until then are the expected ones)", hi, watchdog, ei))
+		return
 	}
 	if ei != len(exps) {
 		fail("input:lost:"+exps[ei].ev.T, fmt.Sprintf("only %d of %d input events were delivered before the sentinel; first missing: %s", ei, len(exps), exps[ei].ev))
@@ -1019,6 +1054,61 @@ func c05escResize(r *core.Run) {
 			return
 		}
 	}
+}
+
+// c05focusTail: a focus report that ends the input (the terminal then stays silent for longer
+// than the escape timeout) is delivered as the focus event, once, on every terminal family
+// that reports focus - also where the report is the beginning of a key sequence (rxvt:
+// ESC [ O a is Ctrl-Up) - and the input that follows later is delivered on its own. The
+// expected stream does not depend on when the second part arrives (x and I begin no key
+// after ESC [ O), so the pause only gives a wrong timeout path the chance to show.
+func c05focusTail(r *core.Run) {
+	var tis []*terminfo.Terminfo
+	for _, ti := range ECMAEntries() {
+		if ti.Mouse != "" {
+			tis = append(tis, ti)
+		}
+	}
+	n := 0
+	for k, ti := range tis {
+		if r.Tier != "thorough" && !(strings.HasPrefix(ti.Name, "rxvt") || k%4 == int(r.Seed%4)) {
+			continue
+		}
+		for v := 0; v < 2; v++ {
+			ls, err := startScreen(ti, 30, 6, nil)
+			if err != nil {
+				r.Inconclusive(err.Error())
+				return
+			}
+			ls.tty.BeginApp()
+			ls.s.EnableFocus()
+			ls.tty.EndApp()
+			first := []string{"a\x1b[O", "a\x1b[I\x1b[O"}[v]
+			wantEvs := []NEv{{T: "key", Key: tcell.KeyRune, Rune: 'a'}}
+			if v == 1 {
+				wantEvs = append(wantEvs, NEv{T: "focus", Flag: true})
+			}
+			wantEvs = append(wantEvs, NEv{T: "focus", Flag: false}, NEv{T: "key", Key: tcell.KeyRune, Rune: 'x'}, NEv{T: "focus", Flag: true})
+			wait := ls.startPoll(0x1d)
+			ls.tty.Feed([]byte(first))
+			time.Sleep(130 * time.Millisecond)
+			ls.tty.Feed([]byte("x\x1b[I"))
+			ls.tty.Feed([]byte{0x1d})
+			got, ok := wait()
+			ls.judgeSentinel(r, ok, "focus report at the end of the input")
+			ls.fini()
+			r.Case(fmt.Sprintf("focustail|%s|%d", ti.Name, v))
+			if !ok {
+				continue
+			}
+			n++
+			if !evsEq(got, wantEvs) {
+				r.Violate("input:focus-report-then-silence", fmt.Sprintf("%s: the terminal sends %q, stays silent for 130ms, then sends %q: delivered %s, expected %s", ti.Name, first, "x\x1b[I", evsStr(got), evsStr(wantEvs)), nil)
+				return
+			}
+		}
+	}
+	r.Count("focus_tail_rounds", int64(n))
 }
 
 // normEvsOfString: how many events the plain prefix of the scenario produces (a rune or one key).
